@@ -139,6 +139,44 @@ theorem C39_single_last_wins (srcs : List (Option Source)) (ovs : List Override)
   rw [readFilesT_single, hflat]
   exact singleFold_last (K o) o pre post s _ hk hs hsok hpost
 
+/-- Precedence in one statement: lay the sources out in the reading order of this run's code
+    (`readOrder mode files profiles`, i.e. every file followed by its profile files), let `content` say what each
+    source holds.  If source `n` sets option `o` (last by statement `s`) and no source AFTER `n` in that order
+    mentions `o`, and there is no `-o` for it, then `n` decides — whatever lower-priority sources say. -/
+theorem C39_highest_priority_source_wins (files profiles : List String) (content : SrcName → Option Source)
+    (ovs : List Override) (c : Cfg) (o : Nat)
+    (h : effective K low init D ((readOrder mode files profiles).map content) ovs = some c)
+    (hk : isSingleKind (K o) = true) (hov : ∀ x ∈ ovs, ovHits K low 0 o x = false)
+    (before after : List SrcName) (n : SrcName) (horder : readOrder mode files profiles = before ++ n :: after)
+    (a b : Source) (s : Stmt) (hn : content n = some (a ++ s :: b))
+    (hs : s.isFor o = true) (hb : mentions o b = false)
+    (hafter : ∀ m ∈ after, mentions o ((content m).getD []) = false) :
+    c.single o = some (storedVal (K o) s.val) := by
+  have hflat_app : ∀ l₁ l₂ : List (Option Source), flat (l₁ ++ l₂) = flat l₁ ++ flat l₂ := by
+    intro l₁ l₂; simp [flat, List.flatMap_append]
+  have hment : ∀ l : List SrcName, (∀ m ∈ l, mentions o ((content m).getD []) = false) →
+      mentions o (flat (l.map content)) = false := by
+    intro l hl
+    induction l with
+    | nil => rfl
+    | cons m rest ih =>
+      have h1 := hl m (by simp)
+      have h2 := ih (fun x hx => hl x (by simp [hx]))
+      simp only [List.map_cons, flat, List.flatMap_cons, mentions, List.any_append, Bool.or_eq_false_iff] at h1 h2 ⊢
+      exact ⟨h1, h2⟩
+  apply C39_single_last_wins K low init D _ ovs c o h hk hov (flat (before.map content) ++ a) (b ++ flat (after.map content)) s
+  · rw [horder, List.map_append, List.map_cons, hflat_app]
+    simp [flat, List.flatMap_cons, hn, List.append_assoc]
+  · exact hs
+  · simp only [mentions, List.any_append, Bool.or_eq_false_iff]
+    exact ⟨by simpa [mentions] using hb, by simpa [mentions] using hment after hafter⟩
+
+-- non-vacuity: .plzconfig.local wins over .plzconfig's profile file and over .plzconfig
+example : (effective kindOf lowOf (initOf C39.scalarDefaults C39.prepopulatedSlices) (defaultsOf C39.sliceDefaults)
+    ((readOrder mode ["repo", "local"] ["p"]).map fun n =>
+      if n = ("repo", none) then some [⟨0, some "r"⟩] else if n = ("repo", some "p") then some [⟨0, some "rp"⟩]
+      else if n = ("local", none) then some [⟨0, some "l"⟩] else none) []).map (·.single 0) = some (some "l") := by decide
+
 /-- `-o` beats every file: the last override for the option decides (Go ranges over a map, so "last" is
     only meaningful when it is the only one; see `C39_override_order_irrelevant`). -/
 theorem C39_single_override_wins (srcs : List (Option Source)) (ovs : List Override) (c : Cfg) (o : Nat)
